@@ -82,6 +82,22 @@ func runTimingCases(replay bool) {
 				run.Inconclusive("timing/" + c.Name)
 			}(c)
 		}
+		// tunnelled live peers (library client, RTCP inside the tunnel)
+		for _, tc := range []struct {
+			name string
+			tun  gortsplib.Tunnel
+		}{{"tunnel-http-play-rtcp", gortsplib.TunnelHTTP}, {"tunnel-ws-play-rtcp", gortsplib.TunnelWebSocket}} {
+			cwg.Add(1)
+			go func(name string, tun gortsplib.Tunnel) {
+				defer cwg.Done()
+				for attempt := 0; attempt < 3; attempt++ {
+					if tunnelLiveAttempt(ts, tun, name, t) {
+						return
+					}
+				}
+				run.Inconclusive("timing/" + name)
+			}(tc.name, tc.tun)
+		}
 		wg.Add(1)
 		go func() {
 			defer wg.Done()
@@ -307,4 +323,67 @@ func splitSemi(s string) []string {
 		}
 	}
 	return append(out, cur)
+}
+
+// tunnelLiveAttempt: a library client playing through the HTTP or WebSocket tunnel that keeps
+// following the protocol (RTCP receiver reports every 200 ms inside the tunnel, media flowing
+// towards it) must not be expired: it is held for three idle timeouts. Returns false when the
+// attempt was inconclusive.
+func tunnelLiveAttempt(ts *rig.TestServer, tunnel gortsplib.Tunnel, name string, timeout time.Duration) bool {
+	evals.Add(1)
+	cfg := config{Name: fmt.Sprintf("timing/%s/%v", name, timeout), UDP: true, HandlerSet: "full"}
+	pc, err := rig.NewPlayClient(ts, rig.ClientOpts{Name: name, Proto: "tcp", Tunnel: tunnel, ReadTimeout: 20 * time.Second, WriteTimeout: 20 * time.Second, HeldEvery: 1000,
+		Mutate: func(c *gortsplib.Client) { c.VerifSetTimers(nil, 0, 200*time.Millisecond, 0) }})
+	if err != nil {
+		return false
+	}
+	start := time.Now()
+	if err := pc.Start(); err != nil {
+		if canary.WorstSince(start) > 250*time.Millisecond {
+			return false
+		}
+		run.Violation("timing/negotiation-failed/"+name, fmt.Sprintf("%s: a library client could not start playing through the tunnel: %v", name, err), timingWitness{Config: cfg, Case: name, Detail: err.Error()})
+		return true
+	}
+	defer pc.Close()
+	stop := make(chan struct{})
+	var wg sync.WaitGroup
+	wg.Add(1)
+	go func() {
+		defer wg.Done()
+		m := ts.Stream.Desc.Medias[0]
+		for k := 0; ; k++ {
+			select {
+			case <-stop:
+				return
+			case <-time.After(50 * time.Millisecond):
+			}
+			_ = ts.Stream.WritePacketRTP(m, &rtp.Packet{Header: rtp.Header{Version: 2, PayloadType: m.Formats[0].PayloadType(), SequenceNumber: uint16(k), Timestamp: uint32(k) * 3000, SSRC: 7}, Payload: []byte("tunnel-live")})
+		}
+	}()
+	defer func() { close(stop); wg.Wait() }()
+	for time.Since(start) < 3*timeout {
+		if err := pc.Died(); err != nil {
+			if canary.WorstSince(start) > 250*time.Millisecond {
+				return false
+			}
+			run.Violation("timing/live-peer-expired/"+name,
+				fmt.Sprintf("%s (idle timeout %v): the session of a library client playing through the tunnel, sending RTCP reports every 200 ms, ended after %v: %v", name, timeout, time.Since(start).Round(time.Millisecond), err),
+				timingWitness{Config: cfg, Case: name, Detail: "expired while live: " + err.Error()})
+			return true
+		}
+		time.Sleep(50 * time.Millisecond)
+	}
+	n0 := pc.Rd.Delivered()
+	time.Sleep(500 * time.Millisecond)
+	if pc.Rd.Delivered() == n0 && pc.Died() == nil {
+		if canary.WorstSince(start) > 250*time.Millisecond {
+			return false
+		}
+		run.Violation("timing/live-peer-starved/"+name, fmt.Sprintf("%s: no media reached the tunnelled client during the last 500 ms of its live phase", name), timingWitness{Config: cfg, Case: name, Detail: "no media"})
+		return true
+	}
+	run.Count("timing-live-phases-held", 1)
+	run.Distinct("timing|" + cfg.Name)
+	return true
 }
